@@ -45,10 +45,10 @@ pub(crate) mod verif_f6 {
         let n: usize = kani::any();
         kani::assume(n >= 2 && n <= 3); // one-symbol histograms are widened to two by build_table_from_data (see f6_single_symbol)
         let counts: [usize; 3] = kani::any();
-        kani::assume(counts[0] <= 300 && counts[1] <= 300 && counts[2] <= 300);
+        kani::assume(counts[0] <= 40 && counts[1] <= 40 && counts[2] <= 40);
         kani::assume(counts[0] > 0 || counts[1] > 0 || (n == 3 && counts[2] > 0));
         let max_log: u8 = kani::any();
-        kani::assume(max_log == 9 || max_log == 8 || max_log == 6 || max_log == 5);
+        kani::assume(max_log == 6 || max_log == 5);
         unsafe { P_CALLS = 0; }
         let t = build_table_from_counts(&counts[..n], max_log, true);
         core::mem::forget(t);
@@ -68,7 +68,7 @@ pub(crate) mod verif_f6 {
     /// F4 regression: data that only uses symbol 0 (e.g. all literal lengths 0)
     #[cfg(kani)]
     #[kani::proof]
-    #[kani::unwind(8)]
+    #[kani::unwind(258)]
     #[kani::stub(super::build_table_from_probabilities, stub_build_from_probs)]
     fn f6_single_symbol() {
         let n: usize = kani::any();
@@ -87,6 +87,6 @@ pub(crate) mod verif_f6 {
     }
 }
 //@end
-//@harness f6_build_table_from_counts kind=proof fn=fse_encoder::build_table_from_counts props=C12,C16,C02 tier=quick bound="2..=3 symbols, counts <= 300, max_log in {5,6,8,9}, zero-bit avoidance on" timeout=2400
+//@harness f6_build_table_from_counts kind=proof fn=fse_encoder::build_table_from_counts props=C12,C16,C02 tier=quick bound="2..=3 symbols, counts <= 40, max_log in {5,6} (both normalisation branches reachable), zero-bit avoidance on" timeout=2400
 //@harness f6_single_symbol kind=proof fn=fse_encoder::build_table_from_data,fse_encoder::build_table_from_counts props=C16,C12 tier=quick bound="1..=4 data symbols all equal (symbol 0..=2)" timeout=2400
 //@assume build_table_from_probabilities (encoder state table construction) is replaced by a recording contract stub in f6_*: F5 (encoder tables equal decoder tables) is not built
